@@ -885,6 +885,11 @@ def run(prop, seed, budget, ctx):
             failures += hf_; distinct |= hd_; dn += hn_
             for k_, v_ in hh_.items(): hist[k_] += v_
             for f in hf_: hist["P:" + f["why"][0].split(":")[0]] += 1
+            import rec_graph
+            hf_, hn_, hd_, hh_ = rec_graph.run_part(seed + 1000, budget)
+            failures += hf_; distinct |= hd_; dn += hn_
+            for k_, v_ in hh_.items(): hist[k_] += v_
+            for f in hf_: hist["P:" + f["why"][0].split(":")[0]] += 1
         extra_rule = "; discriminated unions (annotated discriminator with default / explicit / partial mapping, or inherited from a parent class; Literal discriminator fields, aliased or absent; alternatives with a flattened or pattern-properties field) and a TaggedUnion: " + \
                      {"C13": "dispatch = the mapped alternative alone, unknown / missing tag rejected, serialization adds the key and round-trips",
                       "C03": "input not modified, repeated deserialization stable, no crash",
